@@ -1,4 +1,5 @@
 import NunavutVerif.Model.Overwrite
+import NunavutVerif.Model.OverwriteFs
 import NunavutVerif.Proto
 /-!
 Driver for the C12 correspondence.  One request per line:
@@ -17,6 +18,17 @@ Answer: per run, `;`-separated, `<status>#<ops>#<fs>`:
 * status `ok` | `conflict@p` | `eacces@p` | `render@p` | `pp@p@i`
 * ops `-` or `,`-separated `chmod@p@mode` `mkdirs@p` `open@p` `denied@p` `exec@p@i` `exec@p@i@mode`
 * fs  `-` or `|`-separated `path=content=mode` over all paths named in the request, sorted.
+
+A second request runs the extended file-system model (`Model/OverwriteFs.lean`: directories, symbolic links):
+
+  `fsx <root 0|1>,<createMode>,<dirMode> <nodes> <runs> <probe>`
+
+* `nodes`: `-` or `|`-separated `F:path=content=mode` / `D:path=mode` / `L:path=target` (paths `/`-joined components, a link's
+  target is the real path it points to)
+* `runs`: as above
+* `probe`: `,`-separated paths whose entries are reported
+Answer per run: `<status>#<ops>#<nodes>` with status `ok` | `<error>@path[@i]`, ops `chmod@p@mode` `mkdir@p` `open@p`
+`openfail@p` `exec@p@i[@mode]`, nodes in the request syntax over the probe paths.
 -/
 open NunavutVerif NunavutVerif.Overwrite NunavutVerif.Proto
 
@@ -90,8 +102,80 @@ def joinOr (sep : String) (xs : List String) : String :=
 def showFS (allPaths : List Path) (fs : FS) : String :=
   joinOr "|" (allPaths.filterMap fun p => (fs p).map fun f => s!"{p}={f.content}={f.mode}")
 
+/-! ### extended model -/
+namespace Fsx
+open NunavutVerif.OverwriteFs
+
+def toP (s : String) : P := (splitOnChar s '/').filter (· ≠ "")
+def ofP (p : P) : String := if p.isEmpty then "." else "/".intercalate p
+
+def parseNode (s : String) : Option (P × Node) :=
+  if s.startsWith "F:" then
+    match splitOnChar (s.drop 2).toString '=' with
+    | [p, c, m] => m.toNat?.map fun m => (toP p, .file ⟨c, m⟩)
+    | _ => none
+  else if s.startsWith "D:" then
+    match splitOnChar (s.drop 2).toString '=' with
+    | [p, m] => m.toNat?.map fun m => (toP p, .dir m)
+    | _ => none
+  else if s.startsWith "L:" then
+    match splitOnChar (s.drop 2).toString '=' with
+    | [p, t] => some (toP p, .link (toP t))
+    | _ => none
+  else none
+
+def parseEnvFs (s : String) : Option EnvFs :=
+  match splitOnChar s ',' with
+  | [r, m, d] => if r ≠ "0" ∧ r ≠ "1" then none else
+    match m.toNat?, d.toNat? with
+    | some m, some d => some ⟨r = "1", m, d⟩
+    | _, _ => none
+  | _ => none
+
+def toRun (r : Overwrite.Run) : OverwriteFs.Run :=
+  ⟨r.allowOverwrite, r.filePPs, r.writes.map fun w => ⟨toP w.path, w.content, w.renderOk, w.copyMode⟩⟩
+
+def showErrFs : Option OverwriteFs.Err → String
+  | none => "ok"
+  | some (.conflict p) => s!"conflict@{ofP p}"
+  | some (.eacces p) => s!"eacces@{ofP p}"
+  | some (.isdir p) => s!"isdir@{ofP p}"
+  | some (.noent p) => s!"noent@{ofP p}"
+  | some (.notdir p) => s!"notdir@{ofP p}"
+  | some (.exists_ p) => s!"exists@{ofP p}"
+  | some (.unsupported p) => s!"unsupported@{ofP p}"
+  | some (.render p) => s!"render@{ofP p}"
+  | some (.pp p i) => s!"pp@{ofP p}@{i}"
+
+def showOpFs : OverwriteFs.Op → String
+  | .chmod p m => s!"chmod@{ofP p}@{m}"
+  | .mkdir p => s!"mkdir@{ofP p}"
+  | .openW p => s!"open@{ofP p}"
+  | .openFail p => s!"openfail@{ofP p}"
+  | .exec p i none => s!"exec@{ofP p}@{i}"
+  | .exec p i (some m) => s!"exec@{ofP p}@{i}@{m}"
+
+def showNode (p : P) : Node → String
+  | .file f => s!"F:{ofP p}={f.content}={f.mode}"
+  | .dir m => s!"D:{ofP p}={m}"
+  | .link t => s!"L:{ofP p}={ofP t}"
+
+def answer (env init runs probe : String) : String :=
+  match parseEnvFs env, (parseList init '|').mapM parseNode, (parseList runs ';').mapM parseRun with
+  | some env, some init, some runs =>
+    let fs₀ : OverwriteFs.FS := init.foldl (fun fs pn => fs.set pn.1 pn.2) OverwriteFs.FS.empty
+    let probes := (parseList probe ',').map toP
+    let steps := OverwriteFs.runHistory env (runs.map toRun) fs₀
+    joinOr ";" (steps.map fun s =>
+      let nodes := probes.filterMap fun p => (s.2.2.fs p).map (showNode p)
+      s!"{showErrFs s.2.2.err}#{joinOr "," (s.2.2.ops.map showOpFs)}#{joinOr "|" nodes}")
+  | _, _, _ => "bad-op"
+
+end Fsx
+
 def answer (line : String) : String :=
   match line.splitOn " " with
+  | ["fsx", env, init, runs, probe] => Fsx.answer env init runs probe
   | ["hist", env, init, runs] =>
     match parseEnv env, (parseList init '|').mapM parseFile, (parseList runs ';').mapM parseRun with
     | some env, some init, some runs =>
